@@ -1385,4 +1385,31 @@ theorem deq_run (ds : Nat) (d : Drain) (ids : List Nat) (ops : List DOp) (hn : n
       · exact i2 b hb
     | «break» => simp [noBreak] at hn
 
+/-! ## the writer stack -/
+
+theorem winv_stackCall (cl : Bool) (c : EdnsCfg) (w : Writer) (x : SCall) (h : WInv w) :
+    WInv (stackCall cl c w x).1 := by
+  cases x with
+  | writeMsg p t => exact winv_call w _ h
+  | writeWire b t =>
+    simp only [stackCall]
+    split
+    · exact h
+    · split
+      · exact h
+      · exact winv_call w _ h
+  | commitWire b t =>
+    simp only [stackCall]
+    split
+    · exact h
+    · split
+      · exact h
+      · exact winv_call w _ h
+
+theorem winv_stackRun (cl : Bool) (c : EdnsCfg) (w : Writer) (xs : List SCall) (h : WInv w) :
+    WInv (stackRun cl c w xs) := by
+  induction xs generalizing w with
+  | nil => exact h
+  | cons x xs ih => exact ih _ (winv_stackCall cl c w x h)
+
 end SdnsVerif.Lemmas.OneReply
